@@ -58,6 +58,7 @@ func TestChild(t *testing.T) {
 		}
 	}
 	go stallWatchdog(spec.Flavour)
+	powsim.Flavour = spec.Flavour
 	if spec.Replay != "" {
 		b, err := os.ReadFile(spec.Replay)
 		if err != nil {
